@@ -409,9 +409,13 @@ def main():
             for r in out["records"]))
         fh.write("]\n\n")
         fh.write("def cMaps : List CMap := [\n")
-        fh.write(",\n".join("  ⟨%s, %d, %d, %d, %d, %s, %s⟩" % (
+        def rec_of(t):
+            mm = re.match(r"^(?:struct|union) (\w+)$", t)
+            return mm.group(1) if mm else ""
+        fh.write(",\n".join("  ⟨%s, %d, %d, %d, %d, %s, %s, %s, %s⟩" % (
             lean_str(mp["name"]), mp["type"], mp["key_size"], mp["value_size"], mp["max_entries"],
-            lean_str(mp["keyType"]), lean_str(mp["valType"])) for mp in out["maps"]))
+            lean_str(mp["keyType"]), lean_str(mp["valType"]), lean_str(rec_of(mp["keyType"])),
+            lean_str(rec_of(mp["valType"]))) for mp in out["maps"]))
         fh.write("]\n\n")
         fh.write("def cProgs : List String := [%s]\n\n" % ", ".join(lean_str(p) for p in out["progs"]))
         fh.write("def cGlobals : List (String × String × Nat) := [%s]\n\n" % ", ".join(
